@@ -383,7 +383,7 @@ pub fn run(eng: &Engine) {
         (direct_total, "every direct weight description of 1..=6 weights over weights 0..=11")
     };
     eng.run_enumerated("decoder_direct_weights", dd, dt, 4096, direct_item);
-    let n_desc = eng.tier.pick(100_000, 3_000_000);
+    let n_desc = eng.tier.pick(200_000, 3_000_000);
     eng.run_stage("decoder_descriptions", n_desc, || (2u16..=256, any::<u32>(), 0u8..=2, any::<bool>()).prop_map(|(n, seed, kind, fse)| DescCase { n, seed, kind, fse }), check_desc);
 }
 
